@@ -155,6 +155,13 @@ func genC09World(r *lib.Rng) *c09World {
 	unusedSrc := "local function fu(t)\n  local _, ua = next(t)\n  local ub = 1\n  local uc = 2\n  local ud, ue = 3, 4, 5\n  for _, uf in pairs(t) do local ug = undefinedU end\nend\nfu({})\n"
 	w.files["ign/a.lua"] = unusedSrc
 	w.files["unused.lua"] = unusedSrc
+	// more files than the symbol / analysis worker pools have goroutines (NumCPU+2): a worker serves several files, and
+	// what it returns for one must not contain what it collected for another
+	for i := 0; i < runtime.NumCPU()+10; i++ {
+		w.files[fmt.Sprintf("many/m%02d.lua", i)] = fmt.Sprintf("GGsym_%02d_a = 1\nfunction GGsym_%02d_b() end\n", i, i)
+	}
+	// two table constructors with a same-named key on one line (the owner of a key is searched in maps of locals / globals)
+	w.files["keys.lua"] = "local ca, cb = {kk = 1}, {kk = 2}\nprint(ca.kk, cb.kk)\ngca = {gk = 1} gcb = {gk = 2}\nprint(gca.gk, gcb.gk)\n"
 	w.files["enum.lua"] = "---@enum start\nlocal RED = 1\nlocal GREEN = 2\nlocal BLUE = 1\nlocal PINK = 1\nlocal GREY = 2\n---@enum end\nprint(RED, GREEN, BLUE, PINK, GREY)\n" +
 		"---@enum start\nKIND = {\n  A = 1,\n  B = 2,\n  C = 1,\n  D = 2,\n  E = 1,\n}\n---@enum end\n"
 	return w
@@ -268,6 +275,35 @@ func c09Observe(dir string, w *c09World, order []string) (map[string]string, err
 	}
 	sort.Strings(sl)
 	obs["wssym"] = strings.Join(sl, " ")
+	for i := 1; i < len(sl); i++ {
+		if sl[i] == sl[i-1] {
+			obs["wssym-duplicate"] = sl[i]
+		}
+	}
+	// keys of two constructors on one line: definition / hover / references on each key must answer for that key
+	sess.DidOpen("keys.lua", w.files["keys.lua"])
+	sess.Sync()
+	for _, kp := range [][3]int{{0, 16, 2}, {0, 26, 2}, {2, 7, 2}, {2, 22, 2}} {
+		tag := fmt.Sprintf("keys:%d:%d", kp[0], kp[1])
+		if locs, err := sess.Definition("keys.lua", kp[0], kp[1]); err == nil {
+			var l []string
+			for _, x := range locs {
+				l = append(l, locOfRange(x.Range))
+			}
+			obs[tag+":def"] = strings.Join(l, " ")
+		}
+		if hov, err := sess.Hover("keys.lua", kp[0], kp[1]); err == nil {
+			obs[tag+":hover"] = hov
+		}
+		if locs, err := sess.References("keys.lua", kp[0], kp[1], true); err == nil {
+			var l []string
+			for _, x := range locs {
+				l = append(l, locOfRange(x.Range))
+			}
+			sort.Strings(l)
+			obs[tag+":refs"] = strings.Join(l, " ")
+		}
+	}
 	if tsyms, err := sess.DocumentSymbol("tbl.lua"); err == nil {
 		var flat []flatSym
 		flattenSyms(tsyms, &flat)
@@ -390,6 +426,14 @@ func runC09(res *lib.Result, tier string, seed int64, args []string) error {
 				}
 				if want := fmt.Sprintf("%s:%d", wfile, line); obs["def:"+g] != want {
 					res.AddViolation("impl-vs-model", fmt.Sprintf("go-to-definition of %s leads to %s, the winner of the visit in file-name order is %s", g, obs["def:"+g], want), caseText, false)
+				}
+			}
+			if d := obs["wssym-duplicate"]; d != "" {
+				res.AddViolation("impl-vs-spec", fmt.Sprintf("workspace/symbol \"GG\" lists %s twice", d), caseText, false)
+			}
+			for _, kp := range [][2]string{{"keys:0:16", "1:16:1:18"}, {"keys:0:26", "1:26:1:28"}, {"keys:2:7", "3:7:3:9"}, {"keys:2:22", "3:22:3:24"}} {
+				if got := obs[kp[0]+":def"]; got != kp[1] {
+					res.AddViolation("impl-vs-spec", fmt.Sprintf("keys.lua: go-to-definition on the constructor key at %s leads to [%s], the key itself is %s", kp[0][5:], got, kp[1]), caseText, false)
 				}
 			}
 			if w.sibMod && obs["sibmember"] != "sc/util.lua" {
